@@ -529,6 +529,26 @@ func Scenarios() []Scenario {
 				{Name: "p1", Objects: []*unstructured.Unstructured{ConfigMap("shared", "y"), Widget("w1", 2)}},
 			}, "a1"))
 		}},
+		{Name: "delegated-handover-recreated", Setup: func(w *World) {
+			// the phase object of revision 1 was deleted by a third party and re-created (new uid) before revision 2 arrives
+			w.EnvCreate(NewObjectSet("a1", []PhaseSpec{
+				{Name: "p1", Class: "default", Objects: []*unstructured.Unstructured{ConfigMap("shared", "x"), Widget("w1", 1)}},
+			}))
+			w.RunPass("os", KOS("a1"))
+			w.RunPass("ph", KPH("a1-p1"))
+			w.RunPass("os", KOS("a1"))
+			w.EnvDelete(KPH("a1-p1"), false)
+			for i := 0; i < 4; i++ {
+				if w.Store.Snapshot(KPH("a1-p1")) != nil {
+					w.RunPass("ph", KPH("a1-p1"))
+				}
+				w.EnvGC()
+				w.RunPass("os", KOS("a1"))
+			}
+			w.EnvCreate(NewObjectSet("a2", []PhaseSpec{
+				{Name: "p1", Objects: []*unstructured.Unstructured{ConfigMap("shared", "y"), Widget("w1", 2)}},
+			}, "a1"))
+		}},
 		{Name: "local-to-delegated", Setup: func(w *World) {
 			w.EnvCreate(NewObjectSet("a1", []PhaseSpec{
 				{Name: "p1", Objects: []*unstructured.Unstructured{ConfigMap("shared", "x"), Widget("w1", 1)}},
